@@ -5,6 +5,7 @@ package core
 // state, builder-subset-of-verifier, and the 8-rounds-back version lookup.
 
 import (
+	"github.com/youchainhq/go-youchain/common"
 	"math/big"
 
 	"github.com/youchainhq/go-youchain/core/types"
@@ -189,6 +190,15 @@ func zzH_C12_builder() {
 var zzC12DB map[uint64]*types.Header // the canonical headers the stubbed database knows
 
 //verif:replace (*$M/core.HeaderChain).GetHeaderByNumber zzC12GetHeaderByNumber
+//verif:replace (*$M/core.BlockChain).HasBlock zzC12HasBlock
+//verif:replace (*$M/core/types.Header).Hash zzC12HeaderHash
+
+// batches overlap: any block of a batch may already be in the database
+func zzC12HasBlock(bc *BlockChain, hash common.Hash, number uint64) bool {
+	return zzverif.Bool("blockAlreadyKnown")
+}
+
+func zzC12HeaderHash(h *types.Header) common.Hash { return common.Hash{0xB1, byte(h.Number.Uint64())} }
 
 func zzC12GetHeaderByNumber(hc *HeaderChain, number uint64) *types.Header { return zzC12DB[number] }
 
@@ -225,7 +235,16 @@ func zzH_C12_chain() {
 				halted = true
 			}
 		}()
-		idx, err = bc.VerifyYouVersionState2(chain)
+		if zzverif.Bool("blocksEntry") {
+			// the import path's entry (InsertChain) takes blocks; some of them may be known already
+			blocks := make(types.Blocks, k)
+			for i, h := range chain {
+				blocks[i] = types.NewBlockWithHeader(h)
+			}
+			idx, err = bc.VerifyYouVersionState(blocks)
+		} else {
+			idx, err = bc.VerifyYouVersionState2(chain)
+		}
 	}()
 	if halted {
 		zzverif.Reach("halted")
